@@ -41,7 +41,7 @@ RemoveLastOnTrace(rec) ==
 AllPlain(rec) == \A i \in 1..Len(rec.in.shapes) : rec.in.shapes[i] = "plain"
 HasOutside(rec) == \E i \in 1..Len(rec.in.shapes) : rec.in.shapes[i] \in {"dotdot", "abs", "dot", "dotdot1", "slash"}   \* ("." ".." "/": directories, not files of the upload)
 HasSub(rec) == \E i \in 1..Len(rec.in.shapes) : rec.in.shapes[i] = "sub"
-Faulted(rec) == rec.in.fault.kind \notin {"none", "stale", "stalelong", "xdev", "relpath"}     \* a stale destination file is not a failure; a
+Faulted(rec) == rec.in.fault.kind \notin {"none", "stale", "stalelong", "stalesame", "xdev", "relpath"}     \* a stale destination file is not a failure; a
                                         \* destination on another filesystem is not one either, but a MOVE may refuse it
 
 \* nothing outside the control file's directory and the destination is read into the destination,
